@@ -93,7 +93,10 @@ def mdp_specs(draw, flavour="discounted", min_states=1, max_states=5, max_action
                     outs.append([down, draw(st.integers(2, 4)), draw(rewards)])
                     pos = draw(st.integers(0, len(outs) - 1))
                     outs.insert(pos, outs.pop())
-                if connect and kind == "n" and a == acts[0] and n > 1 and draw(st.integers(0, 3)) > 0:
+                    if max_out == 1:  # deterministic proper MDP: the only outcome is the descending one
+                        outs = [o for o in outs if o[0] == down]
+                if connect and kind == "n" and a == acts[0] and n > 1 and not (proper and max_out == 1) \
+                        and draw(st.integers(0, 3)) > 0:
                     nxt = (s + 1) % n
                     if not any(o[0] == nxt for o in outs):
                         if len(outs) >= max_out:
@@ -109,6 +112,13 @@ def mdp_specs(draw, flavour="discounted", min_states=1, max_states=5, max_action
         trans.append(rows)
         absorbing.append(1 if kind == "abs" else 0)
 
+    if draw(st.integers(0, 3)) == 0:
+        # exact ties: one action of some state becomes a copy of another one (same outcomes, other name)
+        cands = [s for s in range(n) if len(trans[s]) >= 2 and kinds[s] == "n"]
+        if cands:
+            s = cands[draw(st.integers(0, len(cands) - 1))]
+            i, j = draw(st.lists(st.integers(0, len(trans[s]) - 1), min_size=2, max_size=2, unique=True))
+            trans[s][j][1] = [list(o) for o in trans[s][i][1]]
     k0 = draw(st.integers(1, min(3, n))) if multi_p0 else 1
     p0_states = draw(st.lists(st.integers(0, n - 1), min_size=k0, max_size=k0, unique=True))
     p0 = [[s, draw(st.integers(0 if p0_zero_entries else 1, 3))] for s in p0_states]
